@@ -38,6 +38,7 @@ from .boolability import get_boolability
 from .extensions import reveal_type
 from .safe import safe_equals, safe_issubclass
 from .value import (
+    safe_repr,
     NO_RETURN_VALUE,
     UNINITIALIZED_VALUE,
     AnnotatedValue,
@@ -113,7 +114,7 @@ class CompositeVariable:
             if isinstance(attr, str):
                 pieces.append(f".{attr}")
             else:
-                pieces.append(f"[{attr.val!r}]")
+                pieces.append(f"[{safe_repr(attr.val)}]")
         return "".join(pieces)
 
 
@@ -154,7 +155,7 @@ class VarnameWithOrigin:
             if isinstance(index, str):
                 pieces.append(f".{index}")
             else:
-                pieces.append(f"[{index.val!r}]")
+                pieces.append(f"[{safe_repr(index.val)}]")
         return "".join(pieces)
 
 
@@ -442,10 +443,14 @@ class Constraint(AbstractConstraint):
 
     def __str__(self) -> str:
         sign = "+" if self.positive else "-"
-        if isinstance(self.value, list):
-            value = str(list(map(str, self.value)))
-        else:
-            value = str(self.value)
+        try:
+            if isinstance(self.value, list):
+                value = str(list(map(str, self.value)))
+            else:
+                value = str(self.value)
+        except Exception:
+            # the value of an is_value constraint is an arbitrary object
+            value = f"<{type(self.value).__name__} object>"
         return f"<{sign}{self.varname} {self.constraint_type.name} {value}>"
 
 
